@@ -8,6 +8,12 @@
 //!       (extension decides json / yaml), printed as a Gallina term of VV.M1.Schema;
 //!       then one line {"kind":"missing",..}: what find_missing_fill_with reports for the next plan,
 //!       so that the driver can pass --fill-with instead of answering prompts.
+//!   hcli render PROJECT_DIR
+//!       one JSON object: every stored migration rendered the way vespertide-macro builds the runtime
+//!       (macro loader, with_prefix, build_plan_queries against the baseline accumulated BEFORE the migration,
+//!       .build(backend) for the three backends, then the baseline advanced with apply_action), with that
+//!       baseline as a Gallina term; and the pending plan the way `sql` should show it (what `diff` plans,
+//!       prefixed, rendered against the prefixed baseline).
 use std::path::Path;
 
 use serde_json::{Value, json};
@@ -143,13 +149,93 @@ fn cmd_parse(args: &[String]) {
     println!("{}", json!({"kind": "missing", "planned": planned, "items": items}));
 }
 
+fn build_all(qs: &[vespertide_query::BuiltQuery], b: vespertide_query::DatabaseBackend) -> Value {
+    // sea-query panics on types a backend does not have (e.g. Interval on SQLite): reported, not propagated
+    match std::panic::catch_unwind(std::panic::AssertUnwindSafe(|| qs.iter().map(|q| q.build(b)).collect::<Vec<String>>())) {
+        Ok(v) => json!(v),
+        Err(_) => Value::Null,
+    }
+}
+
+fn render_plan(plan: &MigrationPlan, baseline: &[TableDef]) -> Value {
+    use vespertide_query::{DatabaseBackend, build_plan_queries};
+    let r = std::panic::catch_unwind(std::panic::AssertUnwindSafe(|| build_plan_queries(plan, baseline)));
+    match r {
+        Ok(Ok(pqs)) => Value::Array(
+            pqs.iter()
+                .map(|pq| {
+                    json!({"display": pq.action.to_string(),
+                           "postgres": build_all(&pq.postgres, DatabaseBackend::Postgres),
+                           "mysql": build_all(&pq.mysql, DatabaseBackend::MySql),
+                           "sqlite": build_all(&pq.sqlite, DatabaseBackend::Sqlite)})
+                })
+                .collect(),
+        ),
+        Ok(Err(e)) => json!({"error": e.to_string()}),
+        Err(_) => json!({"error": "panic"}),
+    }
+}
+
+fn cmd_render(args: &[String]) {
+    use vespertide_planner::apply_action;
+    std::panic::set_hook(Box::new(|_| {}));
+    let root = std::fs::canonicalize(&args[0]).expect("project dir");
+    std::env::set_current_dir(&root).expect("chdir");
+    let config = match vespertide_loader::load_config() {
+        Ok(c) => c,
+        Err(e) => {
+            println!("{}", json!({"error": format!("config: {}", e)}));
+            return;
+        }
+    };
+    let prefix = config.prefix().to_string();
+    // --- the runtime's view of the stored history (vespertide-macro/src/lib.rs:56-80, 385-397)
+    let mut log: Vec<Value> = Vec::new();
+    match vespertide_loader::load_migrations_from_dir(Some(root.clone())) {
+        Ok(migrations) => {
+            let mut baseline: Vec<TableDef> = Vec::new();
+            for m in &migrations {
+                let pm = m.clone().with_prefix(&prefix);
+                let baseline_g = baseline.gs();
+                let actions = render_plan(&pm, &baseline);
+                for a in &pm.actions {
+                    let _ = apply_action(&mut baseline, a);
+                }
+                log.push(json!({"version": pm.version, "baseline_g": baseline_g, "actions": actions}));
+            }
+        }
+        Err(e) => {
+            println!("{}", json!({"error": format!("migrations: {}", e)}));
+            return;
+        }
+    }
+    // --- the pending plan as `sql` should show it
+    let sql = (|| -> Result<Value, String> {
+        let models = vespertide_loader::load_models(&config).map_err(|e| format!("models: {}", e))?;
+        let plans = vespertide_loader::load_migrations(&config).map_err(|e| format!("migrations: {}", e))?;
+        let prefixed: Vec<MigrationPlan> = plans.iter().cloned().map(|p| p.with_prefix(&prefix)).collect();
+        let baseline = schema_from_plans(&prefixed).map_err(|e| format!("baseline: {}", e))?;
+        let plan = plan_next_migration(&models, &plans).map_err(|e| format!("planning: {}", e))?.with_prefix(&prefix);
+        if plan.actions.is_empty() {
+            return Ok(json!({"none": true}));
+        }
+        Ok(json!({"version": plan.version, "baseline_g": baseline.gs(), "actions": render_plan(&plan, &baseline)}))
+    })();
+    let sql = match sql {
+        Ok(v) => v,
+        Err(e) => json!({"error": e}),
+    };
+    println!("{}", json!({"log": log, "sql": sql}));
+}
+
 fn main() {
     let args: Vec<String> = std::env::args().skip(1).collect();
     match args.first().map(|s| s.as_str()) {
         Some("gen") => cmd_gen(&args[1..]),
         Some("parse") => cmd_parse(&args[1..]),
+        Some("render") => cmd_render(&args[1..]),
         _ => {
-            eprintln!("usage: hcli gen|parse ...");
+            eprintln!("usage: hcli gen|parse|render ...");
             std::process::exit(2);
         }
     }
